@@ -396,7 +396,18 @@ def register(reg, stubs, world):
 
     def setr_pub(cx):
         return cx['self'], 'rules', truthy(cx['overwrite'])
-    reg.add(Contract('policy:Enforcer.set_rules', pre=setr_pre, post=setr_post, raises=('TypeError',),
+
+    def setr_frame(cx, f, old, new):
+        # of the objects that existed before: the three slots of the enforcer, and (update mode) the rule store's content
+        eng, st, s = cx.eng, cx.st0, cx['self']
+        r = z3.Int('srf!r')
+        if f == '$val':
+            R0 = z3.Select(st.H('rules'), V.ref(s))
+            return [qforall([r], z3.Implies(z3.And(r < st.ap, r != V.ref(R0)), z3.Select(new, r) == z3.Select(old, r)),
+                            patterns=[z3.Select(new, r)])]
+        return [qforall([r], z3.Implies(z3.And(r < st.ap, r != V.ref(s)), z3.Select(new, r) == z3.Select(old, r)),
+                        patterns=[z3.Select(new, r)])]
+    reg.add(Contract('policy:Enforcer.set_rules', pre=setr_pre, post=setr_post, raises=('TypeError',), frame=setr_frame,
                      modifies=('rules', 'use_conf', '_need_check_rule', '$val'), allocates=True, publishes=setr_pub,
                      props=('C09', 'C20'),
                      doc='overwrite mode replaces the shared rule store by ONE assignment of a finished Rules object '
